@@ -29,7 +29,7 @@ def profile(name, **kw):
         callers=(1, 3), small=False, check_all_every=16, nontarget=True,
         tx=dict(edit=6, query=3, derive_edit=0, relabel=0, twin=0, pair=0, mutant=0,
                 enum=0, enant=0, react=0, persist=0, algebra=0, faults=0, flip=0,
-                isomers=0, symnum=0, wlpair=0, build=1),
+                isomers=0, symnum=0, wlpair=0, large=0, build=1),
         fault_rate=(0.0, 0.15),
     )
     tx = dict(base["tx"])
@@ -39,13 +39,13 @@ def profile(name, **kw):
     PROFILES[name] = base
 
 
-profile("C09", tx=dict(edit=8, query=5, relabel=1, derive_edit=1, persist=0, build=1), steps=(30, 120))
+profile("C09", tx=dict(edit=8, query=5, relabel=1, derive_edit=1, persist=0, large=0.15, build=1), steps=(30, 120))
 profile("C19", tx=dict(edit=6, query=2, faults=4, relabel=1, build=1), steps=(30, 90), fault_rate=(0.05, 0.3))
 profile("C10", tx=dict(edit=3, query=1, derive_edit=8, relabel=1, react=1, persist=1, algebra=2, isomers=1, build=1),
         nontarget=True, check_all_every=4, callers=(2, 4))
-profile("C11", tx=dict(edit=3, query=2, relabel=8, twin=1, build=1))
-profile("C01", tx=dict(edit=4, query=1, twin=8, relabel=1, derive_edit=1, build=2), max_atoms=(1, 12))
-profile("C03", tx=dict(edit=4, query=2, twin=8, pair=1, build=2), max_atoms=(1, 12))
+profile("C11", tx=dict(edit=3, query=2, relabel=8, twin=1, derive_edit=1, algebra=1, large=0.1, build=1))
+profile("C01", tx=dict(edit=4, query=1, twin=8, relabel=1, derive_edit=1, large=0.15, build=2), max_atoms=(1, 12))
+profile("C03", tx=dict(edit=4, query=2, twin=8, pair=1, large=0.15, build=2), max_atoms=(1, 12))
 profile("C02", tx=dict(edit=4, pair=5, mutant=6, derive_edit=2, wlpair=2, build=2), small=True, max_atoms=(2, 8))
 profile("C05", tx=dict(edit=3, enum=8, symnum=2, derive_edit=2, wlpair=2, build=2), small=True, max_atoms=(2, 13),
         callers=(2, 4))
@@ -55,7 +55,7 @@ profile("C08", tx=dict(edit=2, react=8, build=1), classes=("MG", "SMG", "CRG", "
 profile("C15", tx=dict(edit=5, persist=8, query=1, relabel=1, build=2))
 profile("C16", tx=dict(edit=3, pair=4, mutant=4, flip=4, isomers=4, react=2, build=3), small=True, max_atoms=(2, 8),
         callers=(2, 3))
-profile("C17", tx=dict(edit=4, algebra=8, query=1, build=2))
+profile("C17", tx=dict(edit=4, algebra=8, query=1, large=0.15, build=2), max_atoms=(3, 14))
 
 
 def make_config(rng, prof_name, tier):
@@ -100,6 +100,7 @@ def make_config(rng, prof_name, tier):
         tx={k: v * rng.choice((0, 1, 1, 1, 2)) if k not in ("build", "edit") else v
             for k, v in p["tx"].items()},
         max_slots=rng.randint(4, 10),
+        hypervalent=(prof_name in ("C01", "C03") and rng.random() < (0.04 if tier == "thorough" else 0.012)),
     )
     # the profile's own speciality is never switched off
     top = max(p["tx"], key=lambda k: p["tx"][k])
@@ -553,6 +554,17 @@ class Gen:
         if m.has_changes:
             out.append(dict(k="q", s=s, q="get_atom_stereo_change", a=aa))
             out.append(dict(k="q", s=s, q="get_bond_stereo_change", a=nb[0], b=nb[1]))
+            out.append(dict(k="q", s=s, q="atom_changes_index", a=aa))
+            out.append(dict(k="q", s=s, q="bond_changes_index", a=nb[0], b=nb[1]))
+            pa = self.present_atom(m)
+            if pa is not None and pa not in m.achange:
+                out.append(dict(k="q", s=s, q="atom_changes_index", a=pa))
+            pb_ = self.present_bond(m)
+            if pb_ is not None and B(*pb_) not in m.bchange:
+                out.append(dict(k="q", s=s, q="bond_changes_index", a=pb_[0], b=pb_[1]))
+        if m.is_stereo:
+            out.append(dict(k="q", s=s, q="atom_stereo_index", a=aa))
+            out.append(dict(k="q", s=s, q="bond_stereo_index", a=nb[0], b=nb[1]))
         return out
 
     def rand_query(self, s):
@@ -621,13 +633,23 @@ class Gen:
         n = len(ids)
         motif = motif or (self.cfg["motif_bias"] if self.cfg["motif_bias"] != "any"
                           else rng.choice(("star", "ring", "chain", "ez", "random", "tetra4")))
+        if self.cfg.get("hypervalent") and size is None and rng.random() < 0.5:
+            motif = "star8"
+            ids = list(self.cfg["ids"])
+            while len(ids) < 9:
+                ids.append(max(ids) + 1)
+            rng.shuffle(ids)
+            ids = ids[:9]
+            n = 9
         distinct = motif in ("tetra4", "ez") and len(self.cfg["elements"]) >= 3
         els = list(self.cfg["elements"])
         for i, a in enumerate(ids):
             z = els[i % len(els)] if distinct else rng.choice(els)
             yield dict(k="add_atom", s=s, a=a, t=rng.choice(ELEMENT_FORMS[z]), kw=self.kw())
         bonds = []
-        if motif in ("star", "tetra4") and n >= 2:
+        if motif == "star8":
+            bonds = [(ids[0], x) for x in ids[1:9]]
+        elif motif in ("star", "tetra4") and n >= 2:
             bonds = [(ids[0], x) for x in ids[1:min(n, 7)]]
             bonds += [(ids[i], ids[i + 1]) for i in range(6, n - 1)]
         elif motif == "ring" and n >= 3:
@@ -647,7 +669,7 @@ class Gen:
         rng.shuffle(bonds)
         deg = {}
         for x, y in bonds:
-            if deg.get(x, 0) >= 6 or deg.get(y, 0) >= 6:
+            if motif != "star8" and (deg.get(x, 0) >= 6 or deg.get(y, 0) >= 6):
                 continue
             deg[x] = deg.get(x, 0) + 1
             deg[y] = deg.get(y, 0) + 1
@@ -658,7 +680,7 @@ class Gen:
             if kind in ("CRG", "SCRG") and rng.random() < 0.35:
                 k = rng.choice(("add_formed_bond", "add_broken_bond", "add_fleeting_bond"))
             yield dict(k=k, s=s, a=x, b=y, kw=kw)
-        if kind in ("SMG", "SCRG"):
+        if kind in ("SMG", "SCRG") and motif != "star8":
             for _ in range(n + len(bonds)):
                 if rng.random() > self.cfg["desc_density"] * 0.5:
                     continue
@@ -682,6 +704,49 @@ class Gen:
                     d = self.bond_desc(m, bond=rng.choice(free)) if free else None
                     if d:
                         yield dict(k="set_bstereo", s=s, d=model.list_desc(d))
+
+    def tx_large(self):
+        """more than 128 atoms: index types, positional tables, quadratic views"""
+        rng = self.rng
+        if not self.room():
+            for s in self.graphs(unlocked=True)[:2]:
+                yield dict(k="drop", s=s)
+        s = self.slot_id()
+        n = rng.choice((129, 130, 140, 200, 257, 300))
+        kind = rng.choice(self.cfg["classes"])
+        yield dict(k="bulk", dst=s, cls=kind, n=n, seed=rng.randrange(2 ** 31),
+                   base=rng.choice((0, -50, 1000)), stride=rng.choice((1, 1, 3)), els=sorted(set(self.cfg["elements"]))[:3])
+        sl = self.w.graph(s)
+        if sl is None:
+            return
+        for _ in range(rng.randint(1, 4)):
+            sl = self.w.graph(s)
+            if sl is None:
+                return
+            m = sl.model
+            r = rng.random()
+            if r < 0.35:
+                yield self.rand_mutator(s)
+            elif r < 0.5:
+                yield dict(k="q", s=s, q=rng.choice(("connectivity_matrix", "connected_components", "len", "hash", "eq_self")))
+            elif r < 0.6:
+                yield dict(k="probe_twin", s=s, seed=rng.randrange(2 ** 31), route=rng.choice(("fresh", "relabel")))
+            elif r < 0.8 and self.room():
+                ats = m.sorted_atoms()
+                start = rng.randrange(len(ats))
+                S = ats[start:start + rng.randint(2, 40)]
+                rng.shuffle(S)
+                d = self.slot_id()
+                yield dict(k="subgraph", src=s, dst=d, atoms=S, **{"as": rng.choice(("list", "set", "gen"))})
+                if d in self.w.slots:
+                    yield dict(k="drop", s=d)
+            elif self.room():
+                d = self.slot_id()
+                yield dict(k="relabel", src=s, dst=d, map=self.rand_mapping(m), copy=True)
+                if d in self.w.slots:
+                    yield dict(k="drop", s=d)
+        if self.w.graph(s) is not None and not self.w.slots[s].locks:
+            yield dict(k="drop", s=s)
 
     def tx_edit(self):
         rng = self.rng
@@ -773,6 +838,13 @@ class Gen:
             return []
         total = rng.random() < 0.4 if total is None else total
         keys = ats if total else [a for a in ats if rng.random() < 0.5]
+        if not total and rng.random() < 0.3:
+            # touch only atoms that no stereo change (or no descriptor) mentions
+            named = {x for w_, _k, _r, d in m.all_descs() if w_ in ("achange", "bchange") or rng.random() < 0.3
+                     for x in d[1] if x is not None}
+            rest = [a for a in ats if a not in named]
+            if rest:
+                keys = [a for a in rest if rng.random() < 0.7] or [rng.choice(rest)]
         if not keys:
             keys = [rng.choice(ats)]
         style = rng.randrange(4)
@@ -905,6 +977,8 @@ class Gen:
         (6, [(0, 3), (0, 4), (0, 5), (1, 3), (1, 4), (1, 5), (2, 3), (2, 4), (2, 5)],
             [(0, 1), (1, 2), (2, 0), (3, 4), (4, 5), (5, 3), (0, 3), (1, 4), (2, 5)]),
         (9, [(i, (i + 1) % 9) for i in range(9)], [(0, 1), (1, 2), (2, 0), (3, 4), (4, 5), (5, 3), (6, 7), (7, 8), (8, 6)]),
+        (10, [(i, (i + 1) % 10) for i in range(10)],
+             [(0, 1), (1, 2), (2, 3), (3, 0), (4, 5), (5, 6), (6, 7), (7, 8), (8, 9), (9, 4)]),
         # decalin vs bicyclopentyl skeletons
         (10, [(0, 1), (1, 2), (2, 3), (3, 4), (4, 5), (5, 0), (4, 6), (6, 7), (7, 8), (8, 9), (9, 5)],
              [(0, 1), (1, 2), (2, 3), (3, 4), (4, 0), (0, 5), (5, 6), (6, 7), (7, 8), (8, 9), (9, 5)]),
@@ -953,6 +1027,10 @@ class Gen:
         if rng.random() < 0.5:
             a, b = b, a
         yield dict(k="probe_pair", s1=a, s2=b)
+        if kind == "SMG":
+            # regular, not vertex transitive: the symmetry number must still be exact
+            yield dict(k="symnum", s=a)
+            yield dict(k="symnum", s=b)
         if self.room() and rng.random() < 0.7:
             e = self.slot_id()
             yield dict(k="enum_open", g1=a, g2=b, dst=e, stereo=False, changes=False, labels=None)
@@ -1280,8 +1358,12 @@ class Gen:
         r = rng.random()
         if r < 0.45:
             ats = m.sorted_atoms()
-            mode = rng.randrange(4)
-            if mode == 0:
+            mode = rng.randrange(5)
+            if mode == 4 and m.bonds:
+                # a small connected cut-out (a bond and maybe a neighbour)
+                x, y = self.present_bond(m)
+                S = [x, y] + [z for z in sorted(m.nbrs(x) | m.nbrs(y)) if z not in (x, y) and rng.random() < 0.3][:2]
+            elif mode == 0 or mode == 4:
                 S = [a for a in ats if rng.random() < 0.6]
             elif mode == 1 and m.atoms:
                 S = sorted(rng.choice(m.components()))
